@@ -49,9 +49,9 @@ import common as C
 from gen import reports as R
 
 PROPERTY = "C10"
-LEAN_MODULES = ["LccModel.Props.C10"]
-PROPS_FILES = ["LccModel/Props/C10.lean"]
-NAMESPACES = {"LccModel/Props/C10.lean": "LccModel.C10"}
+LEAN_MODULES = ["LccModel.Props.C10", "LccModel.Props.C10Info"]
+PROPS_FILES = ["LccModel/Props/C10.lean", "LccModel/Props/C10Info.lean"]
+NAMESPACES = {"LccModel/Props/C10.lean": "LccModel.C10", "LccModel/Props/C10Info.lean": "LccModel.C10"}
 DRIVER = "drivers/C10.lean"
 TABLE_OPENS = ("LccModel.Saving", "LccModel.Report")
 TRUSTED_BASE = [
@@ -500,8 +500,11 @@ def own_result_status(report, event):
 class Observer:
     """subscribed LAST: runs on the handler thread after the writer and every file session handled the event"""
 
-    def __init__(self, report, sessions, on_handled=None):
+    def __init__(self, report, sessions, on_handled=None, infos=None):
         self.report, self.sessions = report, sessions
+        self.infos = {}                            # k -> [(name, value)]: `Report.add_info` calls made once event k is handled
+        for k, n, v in infos or []:
+            self.infos.setdefault(k, []).append((n, v))
         self.k = 0
         self.seen = [0] * len(sessions)
         self.copies = [[] for _ in sessions]       # per session: [(k, load result)]
@@ -523,11 +526,15 @@ class Observer:
                 n_new = be.saves - self.seen[i]
                 self.seen[i] = be.saves
                 self.copies[i].append((self.k, n_new, load_nf(path)))
+        # what a test does through `lcc.add_report_info` between two of its events: a direct mutation of the report, no event
+        for n, v in self.infos.get(self.k, ()):
+            self.report.add_info(n, v)
         if self.on_handled:
             self.on_handled(self.k)
 
 
-def run_stream(events, nb_threads, specs, top, clock_seq=None, async_mgr=True, pace=None, on_handled=None, observe=True):
+def run_stream(events, nb_threads, specs, top, clock_seq=None, async_mgr=True, pace=None, on_handled=None, observe=True,
+               infos=None, title=None):
     """specs: [(backend kind, variant, strategy expression)] → observation dict.  The report, the writer and the
     sessions are wired exactly like `Session.create` does (writer first, then one session per backend)."""
     from lemoncheesecake.reporting.report import Report
@@ -538,6 +545,11 @@ def run_stream(events, nb_threads, specs, top, clock_seq=None, async_mgr=True, p
     with patched_clock(clock):
         report = Report()
         report.nb_threads = nb_threads
+        if title is not None:
+            report.title = title                    # `Project.build_report_title()`, set by `lcc run` before the session exists
+        for k, n, v in infos or []:
+            if k == 0:
+                report.add_info(n, v)               # `Project.build_report_info()`: before the first event
         em = (AsyncEventManager if async_mgr else SyncEventManager).load()
         em.add_listener(ReportWriter(report))
         sessions = []
@@ -548,7 +560,7 @@ def run_stream(events, nb_threads, specs, top, clock_seq=None, async_mgr=True, p
             sess = be.create_reporting_session(d, report, nb_threads > 1, make_report_saving_strategy(expr))
             em.add_listener(sess)
             sessions.append((sess.path, be))
-        obs = Observer(report, sessions if observe else [], on_handled)
+        obs = Observer(report, sessions if observe else [], on_handled, infos=[x for x in (infos or []) if x[0] > 0])
         em.add_listener(obs)
         real = [R.build_event(e, report) for e in events]
         failure = None
@@ -646,9 +658,13 @@ def nf_prefix(a, b):
         embed(x["tests"], y["tests"], lambda t: t["md"]["name"], test, at)
         embed(x["suites"], y["suites"], lambda s: s["md"]["name"], suite, at)
 
-    for k in ("title", "info", "nb_threads"):
+    for k in ("title", "nb_threads"):
         if a[k] != b[k]:
             why.append("report %s changed" % k)
+    # the information lines the earlier report shows are the first lines of the later one: same names, same values, same order
+    # (`lcc.add_report_info` during the run may only ADD lines)
+    if list(b["info"][:len(a["info"])]) != list(a["info"]):
+        why.append("report info lines changed: %r is not the beginning of %r" % (a["info"], b["info"]))
     if a["end"] is not None:
         if a != b:
             why.append("report of an ended session changed")
@@ -834,6 +850,9 @@ REAL_WILD = ["plain", "non-ascii", "astral", "surrogate", "surrogate", "c0", "cr
 def gen_real_spec(rng, texts="plain"):
     """texts: what the log messages / step names passed to the REAL logging API hold ("plain" | "safe" | "wild");
     a third of the tests and suites get an explicit `name=` (dotted, dashed, …: `gen.reports.gen_node_name`)"""
+    with_info = texts != "wild" and rng.random() < 0.5
+    used = []
+
     def text(plain):
         if texts == "plain" or rng.random() < 0.5:
             return plain
@@ -854,6 +873,10 @@ def gen_real_spec(rng, texts="plain"):
                 out.append(["url", "http://x/%d" % rng.randint(0, 9)])
             else:
                 out.append(["raise"])
+        if with_info and rng.random() < 0.45:
+            # the test publishes a report information (few names: reused with other values by other tests)
+            out.insert(rng.randint(0, len(out)), ["info", rng.choice(INFO_NAMES), text("v%d" % rng.randint(0, 99)) or "v"])
+            used.append(1)
         return out
 
     def suite(name, depth):
@@ -876,7 +899,10 @@ def gen_real_spec(rng, texts="plain"):
         if rng.random() < 0.3 and not has_dep(out):
             out["dname"] = "%s.%s" % (name, rng.choice(["v1.2", "x", "0"]))
         return out
-    return {"suites": [suite("top%d" % i, 1) for i in range(rng.choice([1, 1, 2]))], "nb_threads": rng.choice([1, 1, 2, 3])}
+    spec = {"suites": [suite("top%d" % i, 1) for i in range(rng.choice([1, 1, 2]))], "nb_threads": rng.choice([1, 1, 2, 3])}
+    if used:
+        spec["has_info"] = True
+    return spec
 
 
 def _build_real_suites(spec):
@@ -895,6 +921,8 @@ def _build_real_suites(spec):
                     check_that("value", 1, equal_to(1 if a[1] else 2))
                 elif a[0] == "url":
                     lcc.log_url(a[1], "a url")
+                elif a[0] == "info":
+                    lcc.add_report_info(a[1], a[2])
                 elif a[0] == "raise":
                     raise RuntimeError("generated failure")
         return run
@@ -1160,6 +1188,47 @@ def check_sessions(events, handled, failure, sessions, status_after, final_repor
     return fails
 
 
+INFO_NAMES = ["build", "target", "campaign"]
+
+
+def gen_infos(rng, events, texts="plain"):
+    """`Report.add_info` calls around the stream: [[k, name, value]], k = number of events handled when the call is made
+    (0 = before the run, like `Project.build_report_info()`; never after the end of the session).  Few names, so that a
+    name is often published twice with different values."""
+    last = len(events) - 1 if events and events[-1]["e"] == "sessionEnd" else len(events)
+    if last < 1:
+        return []
+    out = []
+    for _ in range(rng.choice([1, 2, 2, 3, 4])):
+        k = rng.choice([0, rng.randint(1, last), rng.randint(1, last)])
+        name = rng.choice(INFO_NAMES)
+        value = "v%d" % rng.randint(0, 99)
+        if texts == "safe" and rng.random() < 0.4:
+            value += " caf\u00e9"
+        elif texts == "wild" and rng.random() < 0.5:
+            value = R.gen_string(rng, rng.choice(REAL_WILD))
+        out.append([k, name, value])
+    out.sort(key=lambda x: x[0])
+    return out
+
+
+def info_features(infos, copies_k):
+    """copies_k: the event counts at which some file was saved"""
+    f = []
+    if not infos:
+        return f
+    f.append("info-published-during-run" if any(k > 0 for k, _, _ in infos) else "info-before-run-only")
+    seen = {}
+    for k, n, v in infos:
+        if n in seen and seen[n][1] != v:
+            f.append("info-name-reused-with-other-value")
+            # a file was saved between the two calls: it shows the first value
+            if any(seen[n][0] < c <= k for c in copies_k):
+                f.append("info-name-reused-AFTER-a-save-showing-the-first-value")
+        seen[n] = (k, v)
+    return f
+
+
 def gen_backends(rng):
     """the FILE backends attached to the run, in subscription order (what `--reporting json junit` / a project's
     `default_reporting_backend_names` give): any non-empty combination of json / xml / junit, any order"""
@@ -1193,6 +1262,11 @@ class Snap(C.Stream):
          "events": _CORPUS_EVENTS[:7] + [dict(_CORPUS_EVENTS[2], t=1_600_000_000_050)] + _CORPUS_EVENTS[7:],
          "nb_threads": 1, "variant": 1, "alias": True, "every": 0, "every_backend": "xml",
          "clock": [10_000 + 250 * i for i in range(40)]},
+        # report information: a line set before the run, the same name published by the first test and again (another value) by
+        # the second one, with saves in between (every strategy but at_end_of_tests): each file shows a beginning of the final list
+        {"kind": "gen", "label": "wf", "events": _CORPUS_EVENTS, "nb_threads": 1, "variant": 0, "alias": False, "every": 1,
+         "every_backend": "json", "clock": [10_000 + 750 * i for i in range(40)], "backends": ["json", "xml"], "title": "Nightly run",
+         "infos": [[0, "campaign", "nightly"], [4, "target", "alpha"], [9, "target", "beta"], [9, "campaign", "nightly"]]},
     ]
 
     def gen(self, rng, i):
@@ -1227,6 +1301,11 @@ class Snap(C.Stream):
             # the XML and JUnit backends write ElementTree text raw: a session of one of them, in a loop of its own
             case.update(texts="wild", every_backend="json", xml_strategy=rng.choice(STATIC), limited_kind=rng.choice(["xml", "xml", "junit"]),
                         backends=["json"])
+        # report information published before / during the run (`Project.build_report_info`, `lcc.add_report_info`), a report title
+        if label == "wf" and rng.random() < 0.55:
+            case["infos"] = gen_infos(rng, events, "plain" if texts == "wild" else texts)
+            if rng.random() < 0.4:
+                case["title"] = rng.choice(["Nightly run", "T", "Report of build 12"])
         return case
 
     @staticmethod
@@ -1245,16 +1324,17 @@ class Snap(C.Stream):
                 obs["events"] = events
                 obs["nb_threads"] = case["spec"]["nb_threads"]
                 return _intern(obs)
-            obs = run_stream(case["events"], case["nb_threads"], specs, os.path.join(top, "a"))
+            ikw = {"infos": case.get("infos"), "title": case.get("title")}
+            obs = run_stream(case["events"], case["nb_threads"], specs, os.path.join(top, "a"), **ikw)
             espec = [(case["every_backend"], case.get("variant", 0), "every_%ds" % case["every"])]
-            obs2 = run_stream(case["events"], case["nb_threads"], espec, os.path.join(top, "b"), clock_seq=case["clock"])
+            obs2 = run_stream(case["events"], case["nb_threads"], espec, os.path.join(top, "b"), clock_seq=case["clock"], **ikw)
             obs["every"] = obs2["sessions"][0]
             obs["every_handled"] = obs2["handled"]
             obs["every_failure"] = obs2["failure"]
             if case.get("xml_strategy"):
                 # the XML backend on texts its format cannot carry: a run of its own (a raising save stops the whole handler loop)
                 obs3 = run_stream(case["events"], case["nb_threads"], [(case.get("limited_kind", "xml"), 0, case["xml_strategy"])],
-                                  os.path.join(top, "x"))
+                                  os.path.join(top, "x"), **ikw)
                 obs["xml_run"] = {"handled": obs3["handled"], "failure": obs3["failure"], "session": obs3["sessions"][0]}
             return _intern(obs)
         finally:
@@ -1297,6 +1377,10 @@ class Snap(C.Stream):
         nb = obs["nb_threads"] if case["kind"] == "real" else case["nb_threads"]
         req = {"op": "snap", "events": R.wire(events), "nb_threads": nb, "strategies": strategies,
                "clock": case.get("clock", [0]), "want": want}
+        if case.get("infos"):
+            req["infos"] = [[k, R.wire_str(n), R.wire_str(v)] for k, n, v in case["infos"]]
+        if case.get("title") is not None:
+            req["title"] = R.wire_str(case["title"])
         if "xml_run" in obs:
             req["xml_sessions"] = [{"s": strat_wire(case["xml_strategy"]), "enc": "utf8", "kind": case.get("limited_kind", "xml")}]
         elif any(s.get("save_errors") for s in obs["sessions"]):
@@ -1334,6 +1418,14 @@ class Snap(C.Stream):
         reports = {k: R.nf_of_desc(R.unwire(r)) for k, r in ans["reports"]}
         mprefix = {k: v for k, v in ans["prefix"]}
         final_m = R.nf_of_desc(R.unwire(ans["final"]))
+        racy_info = case["kind"] == "real" and case["spec"].get("has_info")
+        if wf_case and case.get("infos") and not ans.get("safe_acts"):
+            return "the act list (events + add_info calls) is not accepted by safeActs"
+        if racy_info:
+            # `lcc.add_report_info` is called on the test's thread while the handler thread lags behind: WHICH save first shows a
+            # line is not determined by the recorded event order; the model is compared on everything else, the oracle's prefix
+            # relation covers the lines
+            final_m = dict(final_m, info=obs["final_report"]["info"])
         if final_m != obs["final_report"]:
             return "final report differs: " + _first_diff(final_m, obs["final_report"])
         unique = sibling_names_unique(final_m)
@@ -1350,10 +1442,12 @@ class Snap(C.Stream):
                     if not dj.endswith(": equal"):
                         return "%s: JUnit document after event %d differs (model vs file): %s" % (s["spec"], c["k"], dj)
                 if c["k"] in reports and "nf" in c["load"]:
+                    if racy_info:
+                        reports[c["k"]] = dict(reports[c["k"]], info=_nf(obs, c["load"])["info"])
                     if _nf(obs, c["load"]) != reports[c["k"]]:
                         return "%s: content of the snapshot after event %d differs: %s" % (
                             s["spec"], c["k"], _first_diff(reports[c["k"]], _nf(obs, c["load"])))
-                    if unique:
+                    if unique and not racy_info:
                         py = not nf_prefix(_nf(obs, c["load"]), obs["final_report"])
                         if py != mprefix[c["k"]]:
                             return "%s: prefix relation of snapshot %d to the final report: oracle %s, Lean prefixB %s" % (
@@ -1395,6 +1489,15 @@ class Snap(C.Stream):
                     f.append("junit-saved-while-a-test-is-in-progress")
         if case.get("limited_kind"):
             f.append("limited-run-kind=" + case["limited_kind"])
+        copies_k = sorted({c["k"] for s in obs["sessions"] for c in s["copies"]})
+        f += info_features(case.get("infos"), copies_k)
+        if case.get("title") is not None:
+            f.append("title-set")
+        if case["kind"] == "real" and case["spec"].get("has_info"):
+            f.append("real-run-calls-add_report_info")
+            infos_seen = [tuple(map(tuple, _nf(obs, c["load"])["info"])) for s in obs["sessions"] for c in s["copies"] if "nf" in c["load"]]
+            if len(set(infos_seen)) > 1:
+                f.append("real-run:saved-files-show-different-info-lists")
         f += ["text:" + c for c in text_profile(events)]
         if "xml_run" in obs:
             x = obs["xml_run"]
@@ -1426,16 +1529,24 @@ class Snap(C.Stream):
                 yield dict(case, spec=dict(spec, nb_threads=1))
             return
         ev = case["events"]
+        inf = case.get("infos") or []
+        for i in range(len(inf)):
+            yield dict(case, infos=inf[:i] + inf[i + 1:])
+        if case.get("title") is not None:
+            yield {k: v for k, v in case.items() if k != "title"}
         for n in (len(ev) // 2, len(ev) * 3 // 4, len(ev) - 1):
             if 0 < n < len(ev):
-                yield dict(case, events=ev[:n])
+                c2 = dict(case, events=ev[:n])
+                if inf:
+                    c2["infos"] = [x for x in inf if x[0] <= n]
+                yield c2
         # drop one complete test
         for i, e in enumerate(ev):
             if e["e"] in ("testStart", "testSkipped", "testDisabled"):
                 p = e["path"]
                 rest = [x for x in ev if not (x.get("path") == p and x["e"].startswith("test"))
                         and not (x.get("loc", {}).get("path") == p and x.get("loc", {}).get("k") == "test")]
-                if len(rest) < len(ev):
+                if len(rest) < len(ev) and not inf:
                     yield dict(case, events=rest)
 
 
